@@ -278,6 +278,10 @@ def _check_unit_root(case):
         kwargs = dict(return_info=True, deviation=dev, rescale_variance=case["rescale"])
         out, info = api("kalman_filter", m.kalman_filter, db, span, **kwargs)
         _selection(col, case, m, db, span, kwargs, out, info, tag="unit_root:selection")
+        nllm = api("neg_log_likelihood", m.neg_log_likelihood, db, span, **{k: x for k, x in kwargs.items() if k != "return_info"})
+        a_, b_ = float(nllm), float(info["neg_log_likelihood"])
+        if math.isfinite(a_) and math.isfinite(b_):
+            col.check(_close(a_, b_, 1e-9, 1e-9), "unit_root:nll_method", lambda: f"neg_log_likelihood() {a_!r}, kalman_filter info {b_!r} (deviation={dev})\n{lm.source(spec)}")
         res[dev] = (out, info)
         contrib = np.asarray(info["neg_log_likelihood_contributions"].get_data(span))[:, 0]
         tot = float(info["neg_log_likelihood"])
